@@ -117,6 +117,15 @@ def verdict(index, entry, aspect, chunk=None):
                                             f"({e['loc']}): computations that vmap cannot handle fail although differentiation could be sequential"), {"m": m, "k": k, "sweeps": _fmt(sw)}
                     if nrows > 1 and not e.get("vmapped"):
                         return "undecided", f"instance run {tag}: a sweep of {nrows} rows is not under torch.vmap ({e['loc']})", {}
+            elif aspect == "vmapchunk":
+                evs_ = [e for e in p["res"].events if e["kind"] == "vmap_chunk_vs_rows"]
+                for e in evs_:
+                    if e.get("chunk") is None or e.get("rows") is None:
+                        return "undecided", f"instance run {tag}: vmap's chunk_size or the rows of the block it is applied to are not known ({e['loc']})", {}
+                    if e["chunk"] < e["rows"]:
+                        return "violated", (f"for {tag}: torch.vmap(chunk_size={e['chunk']}) is applied to a block of {e['rows']} rows ({e['loc']}): the VJP callable runs "
+                                            f"{math.ceil(e['rows'] / e['chunk'])} times for that block — more sweeps than ceil(m/k), and with retain_graph=False the second one meets a freed graph"), \
+                            {"m": m, "k": k, "chunk": e["chunk"], "rows": e["rows"]}
             elif aspect == "order":
                 if len(p["agg"]) != 1:
                     return "undecided", f"instance run {tag}: {len(p['agg'])} aggregator calls on a returning path", {}
@@ -150,5 +159,6 @@ def verdict(index, entry, aspect, chunk=None):
     return "ok", (f"instance runs (sizes concrete, tensors abstract) on {len(ev)} (m, k) pairs, m <= 6, {n} paths: "
                   + {"partition": "the sweeps cover rows 0..m-1 exactly once, in order, in ceil(m/k) non-empty blocks of at most k rows",
                      "vmap": "every sweep of a single row calls torch.autograd.grad directly; only sweeps of more than one row run under torch.vmap",
+                     "vmapchunk": "wherever torch.vmap is given a chunk_size, it is at least the number of rows of the block it is applied to",
                      "order": "row i of the matrix handed to the aggregator is the Jacobian of row i of the cotangents",
                      "retain": "every sweep but the last retains the graph; the last carries the caller's flag"}[aspect]), {"bounded": True, "pairs": len(ev), "paths": n}
